@@ -176,6 +176,16 @@ def cases(tier):
                     s["controls"] = [dict(a, prio=3, name="c0")]
                     s["id"] = {"skel": skel, "pat": pat, "hyd": H, "cv": False, "controls": s["controls"], "init_hair": off}
                     out.append(s)
+        # the tank-level threshold written on the tank's 'pressure' / 'head' attribute instead of 'level' (API spellings)
+        if skel in ("twosrc", "pumpfeed"):
+            for a in A:
+                if a["kind"] != "level" or a["thr"] in (LEVELS[0], LEVELS[-1]) or a.get("attr"):
+                    continue
+                for src in ("pressure", "head"):
+                    s = skeleton(skel, pat, H)
+                    s["controls"] = [dict(a, prio=3, name="c0", src=src)]
+                    s["id"] = {"skel": skel, "pat": pat, "hyd": H, "cv": False, "controls": s["controls"], "spelled_on": src}
+                    out.append(s)
         # a leaking tank (the leak is part of the tank's net inflow): single level controls and hysteresis pairs on it
         if skel in ("twosrc", "pumpfeed"):
             for cs in sets:
